@@ -3,6 +3,7 @@ package mxj
 func init() {
 	vHarnesses["H_C01_decode"] = H_C01_decode
 	vHarnesses["H_C01_decode_opts"] = H_C01_decode_opts
+	vHarnesses["H_C01_decode_root"] = H_C01_decode_root
 	vHarnesses["H_C01_decode_nested"] = H_C01_decode_nested
 	vHarnesses["H_C01_decode_rich"] = H_C01_decode_rich
 	vHarnesses["H_C01_decode_values"] = H_C01_decode_values
@@ -125,6 +126,24 @@ func H_C01_decode_opts() {
 	root := &vXElem{name: "r" + suffix,
 		attrs: [][2]string{{vNondetString(1, 1, "bB") + suffix, "&"}},
 		items: []vXItem{{kind: 1, text: vNondetString(1, 1, " x&")}, {kind: 0, el: k1}, {kind: 0, el: k2}}}
+	vC01tree(root, o, "")
+}
+
+// a document that is nothing but a root element with text (with or without an attribute),
+// under the structural options
+func H_C01_decode_root() {
+	o := vDecOpts{attrPrefix: "-", textKey: []string{"#text", "_text"}[vChoose(2)]}
+	o.seq = vNondetBool()
+	o.simpleAsMap = vNondetBool()
+	o.lower = vNondetBool()
+	o.keepSpaces = vNondetBool()
+	root := &vXElem{name: vNondetString(1, 1, "rR"), items: []vXItem{{kind: 1, text: vNondetString(1, 2, "x &")}}}
+	if vChoose(2) == 1 {
+		root.attrs = [][2]string{{"b", "1"}}
+	}
+	if vChoose(3) == 0 {
+		root.items = nil // an empty root
+	}
 	vC01tree(root, o, "")
 }
 
